@@ -15,11 +15,11 @@ def register(S):
                                           # sending on a closed channel always fails (a frame is never empty)
                                           raises={"EOFError": {"state": ["self.stream.sock is ClosedFile"],
                                                                "props": ["C11", "C08"], "modifies": []},
-                                                  "struct.error": {"only_when": "not fits(data)", "props": ["C11"],
+                                                  "struct.error": {"only_when": "not fits_sent(data, self.compress)", "props": ["C11"],
                                                                    "modifies": []}},
                                           modifies=[], reveal=["frame"])},
                requires=["self.stream.sock is not ClosedFile", "not self.stream.sock.failed"],
-               reveal=["frame"], returns_when=["fits(data)"],
+               reveal=["frame"], returns_when=["fits_sent(data, self.compress)"],
                ensures={"writes_exactly_one_frame": (
                    "old(self.stream.sock).outbuf == old(self.stream.sock.outbuf) + frame(data, True) or "
                    "old(self.stream.sock).outbuf == old(self.stream.sock.outbuf) + frame(data, False)",
@@ -28,7 +28,7 @@ def register(S):
                    "old(self.stream.sock).outbuf == old(self.stream.sock.outbuf) + "
                    "frame(data, published_flag(data, self.compress))", ["C19"]),
                    "still_open": ("self.stream.sock is old(self.stream.sock)", P5)},
-               raises={"struct.error": {"only_when": "not fits(data)", "props": P5, "modifies": [],
+               raises={"struct.error": {"only_when": "not fits_sent(data, self.compress)", "props": P5, "modifies": [],
                                         "state": ["self.stream.sock is old(self.stream.sock)",
                                                   "self.stream.sock.outbuf == old(self.stream.sock.outbuf)"]},
                        "EOFError": {"state": ["self.stream.sock is ClosedFile", "old(self.stream.sock).failed"], "props": P5,
